@@ -4,56 +4,129 @@ import Mathlib.Algebra.Ring.GrindInstances
 import Lean.Data.RArray
 
 /-!
-Proof by reflection for polynomial identities between traced expressions.
+Soundness of the reflective polynomial comparison `polyEq` (`Core/Poly.lean`).
 
-`polyEq a b` normalises both expressions with the commutative-ring normaliser
-that ships with Lean core (`Lean.Grind.CommRing.Expr.toPoly`, whose soundness
-theorem `Expr.eq_of_toPoly_eq` is proved there) and compares the normal forms.
-`polyEq_sound` turns a kernel-evaluated `polyEq a b = true` into
-`∀ R [CommRing R] env, a.eval = b.eval`.  Nothing is trusted beyond the kernel.
+`polyEq_sound`: if the kernel evaluates `polyEq a b` to `true`, then `a` and `b`
+evaluate to the same value in **every** semantics `o : Ops R` over a commutative
+ring whose `+ - * neg` and integer literals are the ring's (`RingLike`), for
+every environment.  Everything else — variables, `sqrt`, `cos`, quotients, type
+constants — is an atom, interpreted by `o` itself.  Nothing is trusted beyond
+the kernel: the normaliser's correctness theorem `Expr.eq_of_toPoly_eq` is
+proved in Lean core.
 -/
 namespace Glm
 open Lean.Grind.CommRing (Expr)
 variable {R : Type} [CommRing R]
 
-theorem E.toG_denote (e : E) (n : Nat) (h0 : 0 < n) (env : Nat → R) (hp : e.isPoly = true)
-    (hv : e.maxVar < n) :
-    e.toG.denote (Lean.RArray.ofFn (fun i : Fin n => env i) h0) = e.eval (ringOps R) env := by
-  induction e with
-  | var i =>
-    simp only [E.maxVar] at hv
-    have := Lean.RArray.get_ofFn (fun i : Fin n => env i) h0 ⟨i, hv⟩
-    simpa [E.toG, Expr.denote, E.eval, Lean.Grind.CommRing.Var.denote] using this
-  | lit k d => simp [E.toG, Expr.denote, E.eval, ringOps]
-  | add a b iha ihb =>
-    simp only [E.isPoly, Bool.and_eq_true] at hp
-    simp only [E.maxVar] at hv
-    simp only [E.toG, Expr.denote, E.eval, ringOps_add]
-    rw [← iha hp.1 (by omega), ← ihb hp.2 (by omega)]; rfl
-  | sub a b iha ihb =>
-    simp only [E.isPoly, Bool.and_eq_true] at hp
-    simp only [E.maxVar] at hv
-    simp only [E.toG, Expr.denote, E.eval, ringOps_sub]
-    rw [← iha hp.1 (by omega), ← ihb hp.2 (by omega)]; rfl
-  | mul a b iha ihb =>
-    simp only [E.isPoly, Bool.and_eq_true] at hp
-    simp only [E.maxVar] at hv
-    simp only [E.toG, Expr.denote, E.eval, ringOps_mul]
-    rw [← iha hp.1 (by omega), ← ihb hp.2 (by omega)]; rfl
-  | neg a iha =>
-    simp only [E.isPoly] at hp
-    simp only [E.maxVar] at hv
-    simp only [E.toG, Expr.denote, E.eval, ringOps_neg]
-    rw [← iha hp hv]; rfl
-  | _ => simp [E.isPoly] at hp
+/-- the operations of `o` on the polynomial constructors are those of the ring `R` -/
+structure RingLike (o : Ops R) : Prop where
+  add : ∀ a b, o.add a b = a + b
+  sub : ∀ a b, o.sub a b = a - b
+  mul : ∀ a b, o.mul a b = a * b
+  neg : ∀ a, o.neg a = -a
+  lit : ∀ n : Int, o.lit n 1 = (n : R)
 
+theorem ringOps_ringLike : RingLike (ringOps R) := ⟨fun _ _ => rfl, fun _ _ => rfl, fun _ _ => rfl, fun _ => rfl, fun _ => rfl⟩
+
+theorem mem_insertNew {l : List E} {x y : E} : x ∈ insertNew l y ↔ x ∈ l ∨ x = y := by
+  unfold insertNew
+  split
+  · rename_i h
+    have : y ∈ l := by simpa using h
+    constructor
+    · exact Or.inl
+    · rintro (h | rfl) <;> assumption
+  · simp
+
+theorem mem_foldl_insertNew {xs acc : List E} {x : E} :
+    x ∈ xs.foldl insertNew acc ↔ x ∈ acc ∨ x ∈ xs := by
+  induction xs generalizing acc with
+  | nil => simp
+  | cons y ys ih => rw [List.foldl_cons, ih, mem_insertNew]; simp [or_assoc]
+
+theorem mem_atomTable {es : List E} {t : E} : t ∈ atomTable es ↔ ∃ e ∈ es, t ∈ e.atoms := by
+  simp [atomTable, mem_foldl_insertNew]
+
+/-- the context interpreting atom number `i` by the value of the `i`-th atom -/
+noncomputable def atomCtx (o : Ops R) (env : Nat → R) (A : List E) : Lean.RArray R :=
+  Lean.RArray.ofFn (n := A.length + 1) (fun i => (A.getD i default).eval o env) (Nat.succ_pos _)
+
+theorem atomCtx_get (o : Ops R) (env : Nat → R) (A : List E) (t : E) (ht : t ∈ A) :
+    (atomCtx o env A).get (A.idxOf t) = t.eval o env := by
+  have hlt : A.idxOf t < A.length := List.idxOf_lt_length_of_mem ht
+  have := Lean.RArray.get_ofFn (n := A.length + 1) (fun i => (A.getD i default).eval o env)
+    (Nat.succ_pos _) ⟨A.idxOf t, by omega⟩
+  simp only [atomCtx]
+  rw [this]
+  simp [List.getD_eq_getElem?_getD, List.getElem?_eq_getElem hlt, List.getElem_idxOf hlt]
+
+theorem E.toGA_denote (o : Ops R) (ho : RingLike o) (env : Nat → R) (A : List E) (e : E)
+    (hA : ∀ t ∈ e.atoms, t ∈ A) :
+    (e.toGA A).denote (atomCtx o env A) = e.eval o env := by
+  induction e with
+  | add a b iha ihb =>
+    simp only [E.atoms, List.mem_append] at hA
+    simp only [E.toGA, Expr.denote, E.eval, ho.add]
+    rw [← iha (fun t h => hA t (Or.inl h)), ← ihb (fun t h => hA t (Or.inr h))]; rfl
+  | sub a b iha ihb =>
+    simp only [E.atoms, List.mem_append] at hA
+    simp only [E.toGA, Expr.denote, E.eval, ho.sub]
+    rw [← iha (fun t h => hA t (Or.inl h)), ← ihb (fun t h => hA t (Or.inr h))]; rfl
+  | mul a b iha ihb =>
+    simp only [E.atoms, List.mem_append] at hA
+    simp only [E.toGA, Expr.denote, E.eval, ho.mul]
+    rw [← iha (fun t h => hA t (Or.inl h)), ← ihb (fun t h => hA t (Or.inr h))]; rfl
+  | neg a iha =>
+    simp only [E.atoms] at hA
+    simp only [E.toGA, Expr.denote, E.eval, ho.neg]
+    rw [← iha hA]; rfl
+  | lit n d =>
+    by_cases hd : d = 1
+    · subst hd; simp [E.toGA, Expr.denote, E.eval, ho.lit]
+    · have hd' : (d == 1) = false := by simpa using hd
+      simp only [E.toGA, hd', Bool.false_eq_true, if_false]
+      exact atomCtx_get o env A _ (hA _ (by simp [E.atoms, hd']))
+  | _ => exact atomCtx_get o env A _ (hA _ (by simp [E.atoms]))
+
+theorem polyEq_sound' {o : Ops R} (ho : RingLike o) {a b : E} (h : polyEq a b = true) (env : Nat → R) :
+    a.eval o env = b.eval o env := by
+  simp only [polyEq] at h
+  have ha : ∀ t ∈ a.atoms, t ∈ atomTable [a, b] := fun t ht => mem_atomTable.2 ⟨a, by simp, ht⟩
+  have hb : ∀ t ∈ b.atoms, t ∈ atomTable [a, b] := fun t ht => mem_atomTable.2 ⟨b, by simp, ht⟩
+  rw [← E.toGA_denote o ho env _ a ha, ← E.toGA_denote o ho env _ b hb]
+  exact Expr.eq_of_toPoly_eq _ _ _ h
+
+/-- the ring-semantics instance used by the division-free families -/
 theorem polyEq_sound {a b : E} (h : polyEq a b = true) (env : Nat → R) :
-    a.eval (ringOps R) env = b.eval (ringOps R) env := by
-  simp only [polyEq, Bool.and_eq_true] at h
-  obtain ⟨⟨ha, hb⟩, hab⟩ := h
-  let n := max a.maxVar b.maxVar + 1
-  have h0 : 0 < n := by omega
-  rw [← E.toG_denote a n h0 env ha (by omega), ← E.toG_denote b n h0 env hb (by omega)]
-  exact Expr.eq_of_toPoly_eq _ _ _ hab
+    a.eval (ringOps R) env = b.eval (ringOps R) env := polyEq_sound' ringOps_ringLike h env
+
+theorem sumE_eval' {o : Ops R} (ho : RingLike o) (l : List E) (env : Nat → R) :
+    (sumE l).eval o env = (l.map (fun e => e.eval o env)).sum := by
+  induction l with
+  | nil => simp [sumE, E.eval, ho.lit]
+  | cons a as ih =>
+    cases as with
+    | nil => simp [sumE]
+    | cons b bs => simp only [sumE, E.eval, ho.add, ih, List.map_cons, List.sum_cons]
+
+/-- identities modulo hypotheses: `a - b = Σ cᵢ (lᵢ - rᵢ)` and every `lᵢ = rᵢ` holds under `env` -/
+theorem polyEqMod_sound {o : Ops R} (ho : RingLike o) {hyps : List (E × E)} {cert : List E} {a b : E}
+    (h : polyEqMod hyps cert a b = true) (env : Nat → R)
+    (hh : ∀ p ∈ hyps, p.1.eval o env = p.2.eval o env) :
+    a.eval o env = b.eval o env := by
+  simp only [polyEqMod, Bool.and_eq_true] at h
+  have := polyEq_sound' ho h.2 env
+  rw [sumE_eval' ho] at this
+  simp only [E.eval, ho.sub] at this
+  have hz : (List.map (fun e => e.eval o env)
+      (List.map (fun x => E.mul x.2 (E.sub x.1.1 x.1.2)) (hyps.zip cert))).sum = 0 := by
+    apply List.sum_eq_zero
+    intro x hx
+    simp only [List.mem_map] at hx
+    obtain ⟨e, ⟨p, hp, rfl⟩, rfl⟩ := hx
+    have := hh p.1 (List.of_mem_zip hp).1
+    simp [E.eval, ho.mul, ho.sub, this]
+  rw [hz] at this
+  exact sub_eq_zero.1 this
 
 end Glm
